@@ -507,6 +507,11 @@ def _normals(tier, seed):
             wang = np.degrees(np.arctan2(np.linalg.norm(np.cross(w1, w2), axis=1), np.einsum("ij,ij->i", w1, w2)))
             obs.check(ang.shape == (m,) and np.abs(ang - wang).max() <= 1e-5, "angle_between_vectors", "angle-is-angle-between-directions",
                       lambda: f"batch of {m}: {ang[:4].tolist()} vs {wang[:4].tolist()}", cls=cls)
+            # parallel and antiparallel directions of different lengths: exactly 0 / 180 (the cosine may round beyond +-1)
+            par = np.asarray(obs.lib("angle_between_vectors", geom.angle_between_vectors, w1 * 3.0, w1 / 7.0), dtype=float)
+            anti = np.asarray(obs.lib("angle_between_vectors", geom.angle_between_vectors, w1 * 3.0, -w1 / 7.0), dtype=float)
+            obs.check(par.shape == (m,) and bool(np.all(np.abs(par) <= 1e-5)) and anti.shape == (m,) and bool(np.all(np.abs(anti - 180.0) <= 1e-5)),
+                      "angle_between_vectors", "angle-is-angle-between-directions", lambda: f"parallel {par[:4].tolist()}, antiparallel {anti[:4].tolist()}", cls=cls + ",parallel")
         obs.nontrivial = m > 1
         obs.outcome = _digest(v)
 
